@@ -208,7 +208,8 @@ Inductive xkind :=
 | KRefuse (cr : str)                                               (* 416 *)
 | KBadGateway.                                                     (* upstream failed: 502 *)
 
-Inductive mclass := MGet | MHead | MOther.   (* what net/http's Response.Write distinguishes *)
+(* what net/http's Response.Write distinguishes: HEAD; POST/PUT/PATCH; every other method (or no request) *)
+Inductive mclass := MPlain | MHead | MPost.
 
 Record exchange := {
   x_meth : mclass;    (* class of the request method *)
